@@ -47,6 +47,13 @@ def vector_probe(ctx, n: int) -> None:
             for j in rng.choice(len(names), size=k, replace=False):
                 nm = names[int(j)]
                 T[nm] = H.tt([H.sample_value(rng, kind, nm) for _ in range(B)])
+        # keep the focusing phase advance moderate (an over-focused beam of metres size only measures round-off)
+        Lmax = max([float(rec.get("L", 0.0))] + ([float(v) for v in T["L"].tolist()] if "L" in T else []))
+        if "k1" in rec and Lmax > 0:
+            cap = 2.25 / Lmax ** 2
+            rec["k1"] = float(np.clip(rec["k1"], -cap, cap))
+            if "k1" in T:
+                T["k1"] = torch.clamp(T["k1"], -cap, cap)
         En = float(H.E.energy(rng))
         nb = B if mode in ("beam", "both") else 1
         P = np.stack([H.LT.gen_particles(rng, NP) for _ in range(nb)])
